@@ -14,6 +14,17 @@ Definition ex_hist_var : list op :=
 Definition ex_hist_ptr : list op :=
   [OCreate 0 5; OAssignRaw 0 0; OCopy 1 0; OCreate 2 6; OAssignRaw 1 2; OSwap 0 2; ODestroy 0; ODestroy 1; ODestroy 2].
 
+(* the other modifiers of String on a shared payload.  "AbC " = markers 4 2 6 7 = 2231.  Variable 1 is lowered (its copy 0 keeps the
+   text), 2 = copy of 1 gets the text of 0 in front (prepend, with the library's local copy in variable 6), 0 is appended to itself,
+   then trimmed (substr + assignment through variable 6) *)
+Definition ex_hist_mod : list op :=
+  [OCreate 0 2231; OCopy 1 0; OStrMod 1 (SMap MLower); OCopy 2 1; OCopy 6 2; OStrCatV true 2 0; ODestroy 6; OStrCatV false 0 0;
+   OCreate 6 (trimv 7 (peek (run FStr [OCreate 0 2231; OStrCatV false 0 0]) 0)); OAssign 0 6; ODestroy 6].
+(* Variant: `b = 5` on a shared list payload (clear() + inline data: OReset), Variant::swap through the local copy (variable 6),
+   the write accessor of another type, then the value assignment of the first type again (both `type != T` branches) *)
+Definition ex_hist_var2 : list op :=
+  [OCreate 0 10; OCopy 1 0; OReset 1; OCopy 6 1; OAssign 1 0; OAssign 0 6; ODestroy 6; OCopy 2 1; ORetype 2 0; ORetype 2 83].
+
 Definition ex_cfg : list (nat * list cop) :=
   [(1%nat, [CWrite 0 (WAppend 1); CCopy 1 0; CWrite 1 (WAppend 2); CDrop 0; CDrop 1]);
    (2%nat, [CAssign 0 1; CWrite 1 WReserve; CSwap 0 1; CDrop 0; CRead 1; CDrop 1]);
